@@ -50,7 +50,7 @@ def closure_members(kind, step_ctor, iv_fields=('iv',)):
     fut = ', '.join('mut_ref_future(self.%s)@' % f for f in iv_fields)
     arg = 'enc' if kind == 'enc' else 'dec'
     return '''
-    open spec fn pre_c(&self) -> bool { true }
+    open spec fn pre_c(&self) -> bool { self.f.pre() }
     #[verifier::prophetic]
     open spec fn post_c(&self, %s: spec_fn(Blk) -> Blk) -> bool {
         self.f.post(%s(%s), seq![%s], seq![%s])
@@ -179,3 +179,19 @@ def init_plain(props=('C09',), fields=('iv',)):
 
 def state_plain(props=('C09',)):
     return {'iv_state': FnC(ret='r', props=props, ensures=[('state', props, 'r@ == self.iv@')])}
+
+
+def DEPS(count=False):
+    """modules extracted from the pinned `cipher` crate (verified dependency text).  Every unit includes
+    them (the repo code is checked against their contracts); their obligations are COUNTED only in the
+    `deps` unit, so count=False strips the property tags here."""
+    from contracts import dep_block
+    mods = dep_block.mods()
+    if not count:
+        for m in mods:
+            for sel in m.items:
+                for name, fc in sel.fns.items():
+                    fc.props = ()
+                    for c in fc.ensures:
+                        c.props = ()
+    return mods
